@@ -287,6 +287,10 @@ class Program:
             src = self.read(rel)
             try:
                 tree = ast.parse(src, filename=rel)
+                if "match " in src:
+                    from .inline import DesugarMatch
+
+                    tree = DesugarMatch().visit(tree)  # literal `match` statements are read as the if / elif chains they abbreviate
             except SyntaxError as ex:
                 raise AnalysisError(f"{rel} does not parse: {ex}") from None
             modname = self.package if n == "__init__.py" else f"{self.package}.{n[:-3]}"
